@@ -222,7 +222,10 @@ pub fn generate(run_seed: u64, quick: bool) -> Scenario {
             p.tables = true;
             p.lists = true;
         }
-        let mut bytes = if wl.chance(1, 4) {
+        let mut bytes = if wl.chance(1, 7) {
+            // small scope: a few minimal constructs and nothing else
+            gen_micro_doc(&mut wl)
+        } else if wl.chance(1, 4) {
             // realistic markup harvested from the repository's own test inputs
             gen_doc_from_seeds(&mut wl, target, &p.mix, p.huge_nums)
         } else {
@@ -560,6 +563,7 @@ pub fn generate(run_seed: u64, quick: bool) -> Scenario {
         variants: vec![],
         repeat_check: false,
         fresh_reference: false,
+        env: gen_env(&mut er),
     }
 }
 
